@@ -22,6 +22,10 @@ type UP4Env struct {
 // UP4Opts selects optional parts.
 type UP4Opts struct {
 	Meters bool // check meter configuration of cells referenced by live rules (C09) and absence elsewhere
+	// Rates (C09 on UP4): for every forwarding terminations entry the meter cells on the packet's path (the
+	// application cell the entry names, the session cell its sessions entry names) must carry exactly the
+	// peak rates MBR x 125 bytes/s of the PDR's QERs for that direction - no other limit, none missing.
+	Rates bool
 }
 
 type appFilter struct {
@@ -246,6 +250,7 @@ func (r *Runner) CheckUP4Image(snap rig.PSnap, env UP4Env, o UP4Opts) (*UP4Obs, 
 	// ---- sessions ----
 	seenUp := map[upKey]bool{}
 	sessMeterOf := map[int]map[int64]bool{}
+	sessMeterDir := map[sessDirKey][]uint64{} // session meter cells named by the session's sessions entries, per direction
 	noteSessCell := func(s *SessState, idx uint64) {
 		if idx != 0 {
 			if sessMeterOf[s.Idx] == nil {
@@ -265,6 +270,7 @@ func (r *Runner) CheckUP4Image(snap rig.PSnap, env UP4Env, o UP4Opts) (*UP4Obs, 
 		}
 		seenUp[k] = true
 		noteSessCell(s, e.Params["session_meter_idx"])
+		sessMeterDir[sessDirKey{s.Idx, true}] = append(sessMeterDir[sessDirKey{s.Idx, true}], e.Params["session_meter_idx"])
 	}
 	for k, s := range wantUp {
 		if !seenUp[k] {
@@ -280,6 +286,7 @@ func (r *Runner) CheckUP4Image(snap rig.PSnap, env UP4Env, o UP4Opts) (*UP4Obs, 
 		}
 		seenDn[ue] = true
 		noteSessCell(s, e.Params["session_meter_idx"])
+		sessMeterDir[sessDirKey{s.Idx, false}] = append(sessMeterDir[sessDirKey{s.Idx, false}], e.Params["session_meter_idx"])
 		// the FARs of the session's downlink PDRs decide buffer vs. tunnel peer
 		var fars []model.FAR
 		for _, p := range s.PDRs {
@@ -395,6 +402,11 @@ func (r *Runner) CheckUP4Image(snap rig.PSnap, env UP4Env, o UP4Opts) (*UP4Obs, 
 			if firstErr != nil {
 				return firstErr
 			}
+			if o.Rates && e.Action != "uplink_term_drop" && e.Action != "downlink_term_drop" {
+				if err := r.checkUP4Rates(snap, s, p, up, tag, e.Params["app_meter_idx"], sessMeterDir[sessDirKey{s.Idx, up}]); err != nil {
+					return err
+				}
+			}
 			ctr := e.Params["ctr_idx"]
 			id := fmt.Sprintf("%d/%d", s.Idx, p.ID)
 			if other, dup := ctrSeen[ctr]; dup && other != id {
@@ -441,6 +453,76 @@ func (r *Runner) CheckUP4Image(snap rig.PSnap, env UP4Env, o UP4Opts) (*UP4Obs, 
 		}
 	}
 	return obs, nil
+}
+
+type sessDirKey struct {
+	idx int
+	up  bool
+}
+
+// checkUP4Rates compares the peak rates of the meter cells on one PDR's path with the MBRs of its QERs.
+func (r *Runner) checkUP4Rates(snap rig.PSnap, s *SessState, p model.PDR, up bool, tag string, appCell uint64, sessCells []uint64) error {
+	cfg := func(meter string, idx uint64) (pir, pburst int64) {
+		if idx == 0 {
+			return 0, 0
+		}
+		for _, m := range snap.Meters {
+			if m.Meter == meter && m.Index == int64(idx) && m.Cfg != nil {
+				return m.Cfg.Pir, m.Cfg.Pburst
+			}
+		}
+		return 0, 0
+	}
+	var want []int64
+	for _, id := range p.QERs {
+		if q, ok := findQER(s, id); ok {
+			mbr := q.MBRDL
+			if up {
+				mbr = q.MBRUL
+			}
+			if q.NoMBR {
+				mbr = 0
+			}
+			if mbr != 0 {
+				want = append(want, int64(mbr*125))
+			}
+		}
+	}
+	var got []int64
+	note := func(meter string, idx uint64) error {
+		pir, pb := cfg(meter, idx)
+		if pir == 0 {
+			return nil
+		}
+		got = append(got, pir)
+		// burst: at least rate x the fixed burst duration of 10 ms
+		if min := pir / 100; pb < min-1 {
+			return fmt.Errorf("%s: %s cell %d has peak burst %d bytes for peak rate %d bytes/s, less than the rate x 10 ms (%d)", tag, meter, idx, pb, pir, min)
+		}
+		return nil
+	}
+	if err := note("app_meter", appCell); err != nil {
+		return err
+	}
+	seen := map[uint64]bool{}
+	for _, c := range sessCells {
+		if !seen[c] {
+			seen[c] = true
+			if err := note("session_meter", c); err != nil {
+				return err
+			}
+		}
+	}
+	sort.Slice(want, func(i, j int) bool { return want[i] < want[j] })
+	sort.Slice(got, func(i, j int) bool { return got[i] < got[j] })
+	if fmt.Sprint(want) != fmt.Sprint(got) {
+		dir := "downlink"
+		if up {
+			dir = "uplink"
+		}
+		return fmt.Errorf("%s: the meter cells on the %s path (application cell %d, session cells %v) limit at %v bytes/s, want exactly the peak rates of the PDR's QERs %v: %v (= MBR x 125)", tag, dir, appCell, sessCells, got, p.QERs, want)
+	}
+	return nil
 }
 
 // checkUP4Meters: configured (non-default) meter cells exist only for QERs of live sessions. A cell that
